@@ -65,7 +65,22 @@ AddChildren(V, slots) ==
   IF slots = <<>> THEN V
   ELSE AddChildren(WithChild(V, <<-9, -9>>, Head(slots).v, Head(slots).id), Tail(slots))
 
-ApplyPatch(V, p) ==
+(* text indexes and lengths in patches are in the units of the document's text encoding (e = "cp", "u8", "u16");
+   tokens are code points.  UnitTok = the number of tokens before unit u, or -1 if u falls inside a character. *)
+TokWE(t, e) ==
+  IF e = "u8" THEN (CASE t \in {"eacute", "cacute"} -> 2
+                      [] t \in {"euro", "zwj", "vs16", "objrepl"} -> 3
+                      [] t \in {"grin", "woman", "laptop"} -> 4
+                      [] OTHER -> 1)
+  ELSE IF e = "u16" THEN (IF t \in {"grin", "woman", "laptop"} THEN 2 ELSE 1)
+  ELSE 1
+RECURSIVE CumWE(_, _, _)
+CumWE(text, k, e) == IF k = 0 THEN 0 ELSE CumWE(text, k - 1, e) + TokWE(text[k], e)
+UnitTok(text, u, e) ==
+  IF e = "cp" THEN (IF u <= Len(text) THEN u ELSE -1)
+  ELSE LET ks == {k \in 0..Len(text) : CumWE(text, k, e) = u} IN IF ks = {} THEN -1 ELSE CHOOSE k \in ks : TRUE
+
+ApplyPatchE(V, p, e) ==
   LET o == V[p.obj] IN
   CASE p.act = "PutMap" ->
          LET V1 == WithChild(V, OldMapId(V, p.obj, p.key), p.val, p.id)
@@ -80,10 +95,13 @@ ApplyPatch(V, p) ==
              V1 == AddChildren(V, slots)
          IN  [V1 EXCEPT ![p.obj].elems = InsAt(@, p.index, slots)]
     [] p.act = "DeleteSeq" ->
-         IF o.ty = "text" THEN [V EXCEPT ![p.obj].text = RemAt(@, p.index, p.length)]
+         IF o.ty = "text"
+         THEN LET k1 == UnitTok(o.text, p.index, e)
+                  k2 == UnitTok(o.text, p.index + p.length, e)
+              IN  [V EXCEPT ![p.obj].text = RemAt(@, k1, k2 - k1)]
          ELSE [V EXCEPT ![p.obj].elems = RemAt(@, p.index, p.length)]
     [] p.act = "SpliceText" ->
-         [V EXCEPT ![p.obj].text = InsAt(@, p.index, p.toks)]
+         [V EXCEPT ![p.obj].text = InsAt(@, UnitTok(o.text, p.index, e), p.toks)]
     [] p.act = "Increment" ->
          IF p.iskey THEN [V EXCEPT ![p.obj].ents[p.key].v.n = @ + p.by]
          ELSE [V EXCEPT ![p.obj].elems[p.index + 1].v.n = @ + p.by]
@@ -94,25 +112,28 @@ ApplyPatch(V, p) ==
     [] OTHER -> V
 
 (* a patch is applicable if it addresses an object of the view and an existing slot *)
-Applicable(V, p) ==
+ApplicableE(V, p, e) ==
   /\ p.obj \in DOMAIN V
   /\ CASE p.act \in {"PutMap", "DeleteMap"} -> V[p.obj].ty \in {"map", "table"}
        [] p.act = "PutSeq" -> p.index < Len(V[p.obj].elems)
        [] p.act = "Insert" -> p.index <= Len(V[p.obj].elems)
-       [] p.act = "DeleteSeq" -> IF V[p.obj].ty = "text" THEN p.index + p.length <= Len(V[p.obj].text)
+       [] p.act = "DeleteSeq" -> IF V[p.obj].ty = "text"
+                                 THEN UnitTok(V[p.obj].text, p.index, e) >= 0 /\ UnitTok(V[p.obj].text, p.index + p.length, e) >= 0
                                  ELSE p.index + p.length <= Len(V[p.obj].elems)
-       [] p.act = "SpliceText" -> p.index <= Len(V[p.obj].text)
+       [] p.act = "SpliceText" -> UnitTok(V[p.obj].text, p.index, e) >= 0
        [] p.act \in {"Increment", "Conflict"} ->
             IF p.iskey THEN p.key \in DOMAIN V[p.obj].ents ELSE p.index < Len(V[p.obj].elems)
        [] OTHER -> TRUE
 
-RECURSIVE ApplyPatches(_, _)
-ApplyPatches(V, ps) ==
+RECURSIVE ApplyPatchesE(_, _, _)
+ApplyPatchesE(V, ps, e) ==
   IF ps = <<>> THEN V
-  ELSE IF ~Applicable(V, Head(ps)) THEN (<<"inapplicable">> :> Head(ps)) @@ V
-  ELSE ApplyPatches(ApplyPatch(V, Head(ps)), Tail(ps))
+  ELSE IF ~ApplicableE(V, Head(ps), e) THEN (<<"inapplicable">> :> Head(ps)) @@ V
+  ELSE ApplyPatchesE(ApplyPatchE(V, Head(ps), e), Tail(ps), e)
+ApplyPatches(V, ps) == ApplyPatchesE(V, ps, "cp")
 
 (* C08 / C09 *)
-Transforms(viewBefore, patches, viewAfter) ==
-  Trim(ApplyPatches(ViewOfProj(viewBefore), patches)) = ViewOfProj(viewAfter)
+TransformsE(viewBefore, patches, viewAfter, e) ==
+  Trim(ApplyPatchesE(ViewOfProj(viewBefore), patches, e)) = ViewOfProj(viewAfter)
+Transforms(viewBefore, patches, viewAfter) == TransformsE(viewBefore, patches, viewAfter, "cp")
 =============================================================================
